@@ -806,6 +806,18 @@ def prop_cdf(case, ctx):
     dup = len(set(x)) < N
     ctx.label("duplicates" if dup else "distinct", "N==1" if N == 1 else "N>1")
     ctx.nontrivial(dup or N >= 5)
+    # the getter is the step function of the sample it was BUILT from: a caller that later reuses / overwrites its own buffer
+    # (sorted or not) must not change it
+    for presorted in (False, True):
+        buf = np.array(sorted(x) if presorted else x, dtype=float)
+        cdf2 = ctx.lib(teneva.cdf_getter, buf)
+        before = np.array(ctx.lib(cdf2, np.array(z, dtype=float)), dtype=float)
+        ctx.check(bool(np.all(np.abs(before - ref) <= 4 * EPS)), "cdf (sorted ndarray sample) is not #{x_i <= z} / len(x)", presorted=presorted)
+        buf *= 10.0
+        buf += 1.0
+        after = np.array(ctx.lib(cdf2, np.array(z, dtype=float)), dtype=float)
+        ctx.check(np.array_equal(before, after), "cdf changed after the caller overwrote the array the sample was passed in",
+                  presorted=presorted, before=before.tolist()[:6], after=after.tolist()[:6])
 
 
 # ------------------------------------------------------------------------------------------- registry
